@@ -166,6 +166,7 @@ func clauseTagged(c *FuncContract, prop string) bool {
 	for _, rc := range c.Reach {
 		all = append(all, rc.Clause)
 	}
+	all = append(all, c.Sends...)
 	for _, cl := range all {
 		if contains(cl.Tags, prop) {
 			return true
